@@ -224,8 +224,23 @@ def normalise_branches(fn):
         changed = False
         for block in _blocks(fn):
             for i, st in enumerate(block):
+                if isinstance(st, ast.Return) and isinstance(st.value, ast.IfExp):
+                    # return A if c else B   ->   if c: return A ; return B
+                    e = st.value
+                    block[i:i + 1] = [ast.copy_location(ast.If(test=e.test, body=[ast.copy_location(ast.Return(value=e.body), st)],
+                                                               orelse=[]), st),
+                                      ast.copy_location(ast.Return(value=e.orelse), st)]
+                    changed = True
+                    break
                 if not isinstance(st, ast.If):
                     continue
+                if not st.orelse and isinstance(st.test, ast.UnaryOp) and isinstance(st.test.op, ast.Not) and len(st.body) == 1 and \
+                        isinstance(st.body[0], ast.Return) and i + 2 == len(block) and isinstance(block[i + 1], ast.Return):
+                    # if not c: return A ; return B   ->   if c: return B ; return A
+                    st.test = st.test.operand
+                    st.body[0], block[i + 1] = block[i + 1], st.body[0]
+                    changed = True
+                    break
                 if st.orelse and _ends(st.orelse) and not _ends(st.body):
                     # the terminating arm first, as a guard clause; the other arm follows the statement
                     neg = st.test.operand if isinstance(st.test, ast.UnaryOp) and isinstance(st.test.op, ast.Not) else \
@@ -263,7 +278,10 @@ def normalise_branches(fn):
 def _is_literal(e, depth=0):
     if isinstance(e, ast.Constant):
         return True
-    if isinstance(e, ast.UnaryOp) and isinstance(e.op, (ast.USub, ast.UAdd)) and isinstance(e.operand, ast.Constant):
+    if isinstance(e, ast.Attribute) and isinstance(e.value, ast.Name) and e.value.id in ("np", "numpy", "math") and \
+            e.attr in ("inf", "nan", "pi", "e"):
+        return True
+    if isinstance(e, ast.UnaryOp) and isinstance(e.op, (ast.USub, ast.UAdd)) and _is_literal(e.operand, depth + 1) and depth < 3:
         return True
     if isinstance(e, ast.BinOp) and isinstance(e.op, (ast.Add, ast.Sub, ast.Mult, ast.Div, ast.Pow)) and depth < 3:
         return _is_literal(e.left, depth + 1) and _is_literal(e.right, depth + 1)
@@ -319,10 +337,37 @@ def propagate_module_constants(tree):
     return n
 
 
+def fold_constants(tree):
+    """len(<literal list / tuple>) -> its length;  list(range(<small int>)) -> the literal list"""
+    n = 0
+
+    class F(ast.NodeTransformer):
+        def visit_Call(self, c):
+            nonlocal n
+            self.generic_visit(c)
+            if isinstance(c.func, ast.Name) and not c.keywords and len(c.args) == 1:
+                a = c.args[0]
+                if c.func.id == "len" and isinstance(a, (ast.List, ast.Tuple)) and not any(isinstance(x, ast.Starred) for x in a.elts):
+                    n += 1
+                    return ast.copy_location(ast.Constant(value=len(a.elts)), c)
+                if c.func.id in ("list", "tuple") and isinstance(a, ast.Call) and isinstance(a.func, ast.Name) and a.func.id == "range" \
+                        and len(a.args) == 1 and not a.keywords and isinstance(a.args[0], ast.Constant) and \
+                        isinstance(a.args[0].value, int) and 0 <= a.args[0].value <= 16:
+                    n += 1
+                    elts = [ast.copy_location(ast.Constant(value=i), c) for i in range(a.args[0].value)]
+                    return ast.copy_location((ast.List if c.func.id == "list" else ast.Tuple)(elts=elts, ctx=ast.Load()), c)
+            return c
+    shadow = {x.id for x in ast.walk(tree) if isinstance(x, ast.Name) and isinstance(x.ctx, ast.Store) and x.id in ("len", "list", "tuple", "range")}
+    if not shadow:
+        F().visit(tree)
+    return n
+
+
 def canonicalise(tree):
     """canonical form of every function of a module, in place: module-level literal constants propagated, comparisons oriented,
     branches normalised, single-use temporaries folded into their use"""
     n = propagate_module_constants(tree)
+    n += fold_constants(tree)
     n += orient_comparisons(tree)
     for fn in [x for x in ast.walk(tree) if isinstance(x, (ast.FunctionDef, ast.AsyncFunctionDef))]:
         n += normalise_branches(fn)
